@@ -148,54 +148,67 @@ def canon(x):
 
 
 def path_cover(edges, max_paths=None, rng=None, max_len=60):
-    """edges: list of {from, act, reply?, to}.  Returns a list of paths (each a list of edges)
-    such that every edge appears in at least one path that starts in the initial state
-    (the `from` of the first edge printed by TLC's BFS)."""
+    """edges: list of {from, act, to}.  Returns a list of paths (each a list of edges) such that
+    every distinct edge appears in at least one path that starts in the initial state (the `from`
+    of the first edge printed by TLC's BFS).  States are keyed by the canonical JSON of the
+    printed record, computed once per edge."""
     if not edges:
         return []
-    init = canon(edges[0]["from"])
+    sid = {}
+    def ident(x):
+        k = canon(x)
+        v = sid.get(k)
+        if v is None:
+            v = sid[k] = len(sid)
+        return v
+    E = []          # (from id, to id, edge index), distinct edges only
+    seen_e = set()
+    for i, e in enumerate(edges):
+        f, t_ = ident(e["from"]), ident(e["to"])
+        k = (f, canon(e["act"]), t_)
+        if k in seen_e:
+            continue
+        seen_e.add(k)
+        E.append((f, t_, i))
+    init = E[0][0]
     succ = {}
-    for e in edges:
-        succ.setdefault(canon(e["from"]), []).append(e)
-    # BFS tree
+    for j, (f, t_, i) in enumerate(E):
+        succ.setdefault(f, []).append(j)
     parent = {init: None}
     order = [init]
     for s in order:
-        for e in succ.get(s, []):
-            t = canon(e["to"])
-            if t not in parent:
-                parent[t] = (s, e)
-                order.append(t)
+        for j in succ.get(s, []):
+            t_ = E[j][1]
+            if t_ not in parent:
+                parent[t_] = (s, j)
+                order.append(t_)
 
     def prefix(s):
         p = []
         while parent[s] is not None:
-            s0, e = parent[s]
-            p.append(e); s = s0
+            s0, j = parent[s]
+            p.append(j); s = s0
         p.reverse()
         return p
-    # greedy: extend each path through yet-uncovered edges to reduce path count
-    covered = set()
-    paths = []
-    eid = lambda e: canon([e["from"], e["act"], e["to"]])
-    all_edges = list(edges)
+    covered = [False] * len(E)
+    todo = list(range(len(E)))
     if rng:
-        rng.shuffle(all_edges)
-    for e in all_edges:
-        if eid(e) in covered:
+        rng.shuffle(todo)
+    paths = []
+    for j in todo:
+        if covered[j] or E[j][0] not in parent:
             continue
-        p = prefix(canon(e["from"])) + [e]
+        p = prefix(E[j][0]) + [j]
         for x in p:
-            covered.add(eid(x))
-        # greedy extension along uncovered edges
-        cur = canon(e["to"])
+            covered[x] = True
+        cur = E[j][1]
         while len(p) < max_len:
-            nxt = [x for x in succ.get(cur, []) if eid(x) not in covered]
+            nxt = [x for x in succ.get(cur, []) if not covered[x]]
             if not nxt:
                 break
             x = nxt[0] if not rng else rng.choice(nxt)
-            p.append(x); covered.add(eid(x)); cur = canon(x["to"])
-        paths.append(p)
+            p.append(x); covered[x] = True; cur = E[x][1]
+        paths.append([edges[E[x][2]] for x in p])
     if max_paths and len(paths) > max_paths:
         (rng or random.Random(1)).shuffle(paths)
         paths = paths[:max_paths]
